@@ -41,6 +41,9 @@ func init() {
 				cfg.Steps += 100
 			}
 			mixStores(cfg, r, 0.2)
+			if r.Bool(0.5) {
+				cfg.PAsync = 0.1 + 0.4*r.Float()
+			}
 			return cfg
 		},
 		run: clusterRun,
